@@ -1003,10 +1003,20 @@ impl Model {
                         }
                     }
                 }
+                def.cols[ci].not_null = set;
                 if self.txs[t as usize].explicit || self.active_txs().len() > 1 {
+                    if self.exact_updates && self.enabled_hazards.contains(KF_ALTER) {
+                        // Listed finding with a crisp shape (exact quirk): the catalogue row is overwritten in place like any
+                        // updated row, so the new flag holds at once for everybody who sees the table, and for good -
+                        // whatever becomes of the altering transaction.
+                        self.quirk(KF_ALTER);
+                        let creator = self.tables[ti].created_by;
+                        let owner = if creator == t || self.sees_tx(t, creator) { creator } else { t };
+                        self.tables[ti].defs.push((owner, def));
+                        return Ok(Exp::Ddl);
+                    }
                     self.hazard(KF_ALTER);
                 }
-                def.cols[ci].not_null = set;
                 self.tables[ti].defs.push((t, def));
                 Ok(Exp::Ddl)
             }
